@@ -76,9 +76,12 @@ Theorem C04_projgr_from_source : forall x g lb ub, Generated.Base.projgr x g lb 
 Proof. reflexivity. Qed.
 Theorem C04_is_boxed_from_source : forall c : cfg, negb (Generated.Base.is_any_inf [lb c; ub c]) = is_boxed c.
 Proof. intros c. unfold Generated.Base.is_any_inf, is_boxed. cbn [existsb]. rewrite orb_false_r. reflexivity. Qed.
+Theorem C04_clip2bounds_from_source : forall x l u, Generated.Base.clip2bounds x l u = vclip x l u.
+Proof. reflexivity. Qed.
 Theorem C04_leaf_call_sites_from_source :
-  Generated.Base.is_boxed_src = "not is_any_inf([lb, ub])"%string /\ Generated.Base.projgr_call_sites_src = ["projgr(x, grad, lb, ub)"%string].
-Proof. split; reflexivity. Qed.
+  Generated.Base.is_boxed_src = "not is_any_inf([lb, ub])"%string /\ Generated.Base.projgr_call_sites_src = ["projgr(x, grad, lb, ub)"%string] /\
+  Generated.Base.clip2bounds_call_sites_src = ["x = clip2bounds(x0, lb, ub)"%string].
+Proof. repeat split; reflexivity. Qed.
 
 Print Assumptions C04_report.
 Print Assumptions C04_fuel_suffices.
